@@ -268,7 +268,7 @@ class Exec:
     def __init__(s, mods, limits=None, params=None, concrete=None, allowed_throws=(), leakcheck=False):
         s.mods = mods; s.lim = limits or Limits(); s.params = params or {}; s.concrete = concrete
         s.allowed_throws = set(allowed_throws); s.leakcheck = leakcheck
-        s.solver = z3.Solver(); s.solver.set('timeout', min(s.lim.fast_ms, s.lim.query_ms)); s.fallbacks = 0; s.merges = 0; s._pinned = []
+        s.solver = z3.Solver(); s.solver.set('timeout', min(s.lim.fast_ms, s.lim.query_ms)); s.fallbacks = 0; s.merges = 0; s._pinned = []; s.extern_data = set()
         s.queries = 0; s.qtime = 0.0; s.qmax = 0.0; s.cache_hits = 0
         s.paths = []; s.violations = []; s.vkeys = set(); s.reached = {}; s.insn = 0; s.forks = 0
         s.gaddr = {}; s.fnids = {}; s.fnnames = []; s.ufs = {}; s.uf_used = {}; s.bytecache = {}; s.normcache = {}
@@ -676,7 +676,15 @@ class Exec:
         name = mod.resolve(name)
         key = (id(mod), name)
         p = s.gaddr.get(key)
-        if p is not None: return p
+        if p is not None:
+            # //@stub also redirects a DATA symbol that is only declared (e.g. a library VTT/vtable read by inlined
+            # constructor/destructor code) to a kernel-defined object
+            if s.redirects and name in s.extern_data:
+                for rx, tgt in s.redirects:
+                    if rx.search(name) and tgt != name:
+                        s.ext_calls['stub-data:' + tgt] = s.ext_calls.get('stub-data:' + tgt, 0) + 1
+                        return s.globref(mod, tgt)
+            return p
         if name in s.fn_of or name in mod.decls: return Ptr(('fn', name), 0)
         for m in s.mods:
             p = s.gaddr.get((id(m), name))
@@ -754,7 +762,7 @@ class Exec:
                         g = m2.globals.get(n)
                         if g is not None and not (g[2] and g[1] is None): other = m2
                     if other is not None: continue
-                    p = s.alloc(st, 0, 'extern', '@' + n)
+                    p = s.alloc(st, 0, 'extern', '@' + n); s.extern_data.add(n)
                 else: p = s.alloc(st, sz, 'const' if const else 'global', '@' + n)
                 s.gaddr[(id(m), n)] = p
         # externs defined in another module
